@@ -319,7 +319,8 @@ func ruleAmbientInputs(c *Ctx, r *Report, rule string) {
 	r.rule(rule, 1, "the library calls nothing from time, math/rand, crypto/rand, os environment/host queries, runtime CPU/goroutine queries, and sorts only with sort.Strings/sort.Ints (no comparator that can tie); it has exactly one select statement and no sync.Pool / package-level caches")
 	bad := 0
 	selects := 0
-	for obj, fd := range c.funcDecls {
+	for _, it := range c.sortedDecls() {
+		obj, fd := it.obj, it.fd
 		if obj.Pkg() == nil || obj.Pkg().Path() != bclPath || fd.Body == nil {
 			continue
 		}
